@@ -287,7 +287,7 @@ def default_model(item):
 
 # ------------------------------------------------------------------ records
 @st.composite
-def gen_record(draw, rdef, allow_empty, maxall=40, raw_ok=False):
+def gen_record(draw, rdef, allow_empty, maxall=40, raw_ok=False, force_value=False):
     """-> {"atoms": [...], "model": [[ [status,value]... ] per item], "nitems": n}"""
     atoms = []
     model = []
@@ -296,6 +296,7 @@ def gen_record(draw, rdef, allow_empty, maxall=40, raw_ok=False):
     stop = n
     if draw(st.integers(0, 2)) == 0:
         stop = draw(st.integers(0 if allow_empty else 1, n))
+    force = force_value and not allow_empty
     i = 0
     while i < n:
         it = rdef[i]
@@ -310,6 +311,8 @@ def gen_record(draw, rdef, allow_empty, maxall=40, raw_ok=False):
             k = draw(st.integers(0 if (allow_empty or atoms) else 1, maxall if draw(st.integers(0, 5)) == 0 else 8))
             while len(vals) < k:
                 c = draw(st.integers(0, 9))
+                if force and not atoms:
+                    c = 9
                 if c == 0:
                     m = draw(st.integers(1, 4))
                     atoms.append(["d", m, "A"])
@@ -327,11 +330,18 @@ def gen_record(draw, rdef, allow_empty, maxall=40, raw_ok=False):
                     t, v = draw(value_token(it.type))
                     atoms.append(["v", t])
                     vals.append([0, v])
+            if force_value and atoms and atoms[-1][0] == "d" and vals:
+                # (C19) trailing defaults of an ALL item are a recorded finding: end with an explicit value
+                t, v = draw(value_token(it.type))
+                atoms.append(["v", t])
+                vals.append([0, v])
             model.append(vals)
             i += 1
             stop = i          # an ALL item swallows the rest of the record: later items see an empty record
             continue
         c = draw(st.integers(0, 9))
+        if force and not atoms:
+            c = 9
         if c <= 1:
             # a run of defaults possibly spanning several SINGLE items
             run = 1
@@ -382,7 +392,7 @@ def usable(k):
 
 
 @st.composite
-def gen_keyword(draw, k, sizes):
+def gen_keyword(draw, k, sizes, fv=False):
     """sizes: dict (size keyword, item) -> value already fixed in this deck"""
     name = draw(st.sampled_from(k.deck_names))
     out = {"name": name, "def": k.name, "kind": k.kind, "recs": [], "empty_ok": k.min_size is None}
@@ -395,17 +405,17 @@ def gen_keyword(draw, k, sizes):
     if k.kind in ("fixed", "data"):
         nrec = k.fixed
         for i in range(nrec):
-            out["recs"].append(draw(gen_record(k.record_def(i), allow_empty=(k.kind == "fixed" and k.min_size is None))))
+            out["recs"].append(draw(gen_record(k.record_def(i), allow_empty=(k.kind == "fixed" and k.min_size is None), force_value=fv)))
         return out
     if k.kind == "slash":
         nrec = draw(st.integers(0, 4))
         for i in range(nrec):
-            out["recs"].append(draw(gen_record(k.record_def(i), allow_empty=False)))
+            out["recs"].append(draw(gen_record(k.record_def(i), allow_empty=False, force_value=fv)))
         return out
     if k.kind == "unknown":
         nrec = draw(st.integers(1, 4))
         for i in range(nrec):
-            out["recs"].append(draw(gen_record(k.record_def(i), allow_empty=False)))
+            out["recs"].append(draw(gen_record(k.record_def(i), allow_empty=False, force_value=fv)))
         return out
     if k.kind == "sized":
         skw, sitem, shift = k.size_kw
@@ -413,7 +423,7 @@ def gen_keyword(draw, k, sizes):
         if k.alternating:
             n *= len(k.records)
         for i in range(n):
-            out["recs"].append(draw(gen_record(k.record_def(i), allow_empty=(k.min_size is None))))
+            out["recs"].append(draw(gen_record(k.record_def(i), allow_empty=(k.min_size is None), force_value=fv)))
         return out
     if k.kind == "tablecoll":
         skw, sitem, shift = k.size_kw
@@ -424,7 +434,7 @@ def gen_keyword(draw, k, sizes):
             nrec = draw(st.integers(0, 3))
             recs = []
             for i in range(nrec):
-                recs.append(draw(gen_record(k.record_def(ri), allow_empty=False)))
+                recs.append(draw(gen_record(k.record_def(ri), allow_empty=False, force_value=fv)))
                 ri += 1
             ri += 1          # the table's closing slash counts as a (empty) record for the parser
             tables.append(recs)
@@ -435,14 +445,14 @@ def gen_keyword(draw, k, sizes):
         sets = []
         for s in range(nsets):
             nrec = draw(st.integers(1, 3))
-            sets.append([draw(gen_record(k.record_def(i), allow_empty=False)) for i in range(nrec)])
+            sets.append([draw(gen_record(k.record_def(i), allow_empty=False, force_value=fv)) for i in range(nrec)])
         out["sets"] = sets
         return out
     raise KeyError(k.kind)
 
 
 @st.composite
-def gen_deck(draw, names=None, maxkw=8):
+def gen_deck(draw, names=None, maxkw=8, avoid_all_default=False):
     """abstract deck: {"unit": name|None, "kws": [...]}"""
     g = grammar()
     pool = [k for k in g.values() if usable(k)] if names is None else [g[n] for n in names]
@@ -517,7 +527,7 @@ def gen_deck(draw, names=None, maxkw=8):
     for k in final:
         if k.name in by_kw:
             continue        # the explicit instance above is the one that counts
-        kws.append(draw(gen_keyword(k, sizes)))
+        kws.append(draw(gen_keyword(k, sizes, avoid_all_default)))
     unit = draw(st.sampled_from([None, None, "METRIC", "FIELD", "LAB", "PVT-M"]))
     return {"unit": unit, "kws": kws}
 
